@@ -231,6 +231,20 @@ CHECKS["C03"] = dict(
          "the bound, overlapping macro names and token lemmas on arbitrary strings are outside (C17 covers printed text).",
     design="3/C03")
 
+CHECKS["C18"] = dict(
+    engine="symx explorer (decision points only) + baton scheduler over the real threads",
+    technique="bounded exhaustive exploration of thread schedules of the real ThreadSocket / _SocketHub / BroadcastChannelBySockets code: the schedule "
+              "vector is the explorer's decision variables (pre-emption bounded, statement granularity inside the hub); NO SMT query decides this "
+              "property -- payloads are strings and the schedule is not an input of any function, so the solver has nothing to decide (stated "
+              "limitation of the technique family; see DESIGN.md 3/C18)",
+    text="Endpoint scripts run in real threads under a baton; control returns to the scheduler at every hub-method entry, at every statement inside "
+         "the hub (sys.settrace) and at every poll sleep / taken lock; each hand-over is a decision point of the same DFS explorer that drives the "
+         "other checks, so every schedule inside the pre-emption bound is one deterministic, replayable path. Per schedule: received == sent per "
+         "direction and socket id, callback sockets get every message, non-blocking receive reports emptiness, no deadlock / livelock / endpoint error.",
+    note="The deciding step is enumeration of schedules inside the stated bound, not a solver verdict: level 'other' for that reason. Trusted: the "
+         "scheduler's parking rule for pollers (a poll iteration that saw an unchanged hub is repeated only after the hub changed), the virtual clock.",
+    design="3/C18")
+
 NOT_YET = "check not built yet in this revision (work in progress; see DESIGN.md section 3 for the planned solver-based check)"
 NOT_APPLICABLE = {}
 
